@@ -11,7 +11,7 @@ PID = "C04"
 ALLOWED_AXIOMS = ["Classical_Prop.classic", "ClassicalDedekindReals.sig_forall_dec",
                   "ClassicalDedekindReals.sig_not_dec", "FunctionalExtensionality.functional_extensionality_dep"]
 PROFILES = ["debug"]
-SHARD_TIMEOUT = 100         # seconds; a hanging implementation becomes TIMEOUT lines, not a stalled check
+SHARD_TIMEOUT = {"quick": 100, "thorough": 900}   # seconds per implementation shard; a hang becomes TIMEOUT lines, not a stalled check
 CASES_PER_SHARD = 20      # sessions are expensive on the model: use all cores
 CORRESPONDENCE = ("compile.rs tail flag / run.rs CALL, TCALL, VARARG, ENTER, RET / procedure.rs apply, call/cc, eval "
                   "re-dispatch / prelude.scm derived forms, observed as the maximum stack pointer at instruction "
